@@ -58,9 +58,9 @@ Extract/ExtractBlocks.vos Extract/ExtractBlocks.vok Extract/ExtractBlocks.requir
 Extract/ExtractMro.vo Extract/ExtractMro.glob Extract/ExtractMro.v.beautified Extract/ExtractMro.required_vo: Extract/ExtractMro.v Mro/Model.vo
 Extract/ExtractMro.vio: Extract/ExtractMro.v Mro/Model.vio
 Extract/ExtractMro.vos Extract/ExtractMro.vok Extract/ExtractMro.required_vos: Extract/ExtractMro.v Mro/Model.vos
-Extract/ExtractOpt.vo Extract/ExtractOpt.glob Extract/ExtractOpt.v.beautified Extract/ExtractOpt.required_vo: Extract/ExtractOpt.v Opt/Syntax.vo Generated/C11_Passes.vo Opt/Model.vo
-Extract/ExtractOpt.vio: Extract/ExtractOpt.v Opt/Syntax.vio Generated/C11_Passes.vio Opt/Model.vio
-Extract/ExtractOpt.vos Extract/ExtractOpt.vok Extract/ExtractOpt.required_vos: Extract/ExtractOpt.v Opt/Syntax.vos Generated/C11_Passes.vos Opt/Model.vos
+Extract/ExtractOpt.vo Extract/ExtractOpt.glob Extract/ExtractOpt.v.beautified Extract/ExtractOpt.required_vo: Extract/ExtractOpt.v Opt/Syntax.vo Generated/C11_Passes.vo Opt/Model.vo Opt/Spec.vo
+Extract/ExtractOpt.vio: Extract/ExtractOpt.v Opt/Syntax.vio Generated/C11_Passes.vio Opt/Model.vio Opt/Spec.vio
+Extract/ExtractOpt.vos Extract/ExtractOpt.vok Extract/ExtractOpt.required_vos: Extract/ExtractOpt.v Opt/Syntax.vos Generated/C11_Passes.vos Opt/Model.vos Opt/Spec.vos
 Extract/ExtractPlan.vo Extract/ExtractPlan.glob Extract/ExtractPlan.v.beautified Extract/ExtractPlan.required_vo: Extract/ExtractPlan.v Plan/Model.vo
 Extract/ExtractPlan.vio: Extract/ExtractPlan.v Plan/Model.vio
 Extract/ExtractPlan.vos Extract/ExtractPlan.vok Extract/ExtractPlan.required_vos: Extract/ExtractPlan.v Plan/Model.vos
@@ -121,6 +121,12 @@ Match/Model.vos Match/Model.vok Match/Model.required_vos: Match/Model.v
 Match/Proofs.vo Match/Proofs.glob Match/Proofs.v.beautified Match/Proofs.required_vo: Match/Proofs.v Match/Model.vo
 Match/Proofs.vio: Match/Proofs.v Match/Model.vio
 Match/Proofs.vos Match/Proofs.vok Match/Proofs.required_vos: Match/Proofs.v Match/Model.vos
+Match/SliceExact.vo Match/SliceExact.glob Match/SliceExact.v.beautified Match/SliceExact.required_vo: Match/SliceExact.v Match/Model.vo Match/Proofs.vo
+Match/SliceExact.vio: Match/SliceExact.v Match/Model.vio Match/Proofs.vio
+Match/SliceExact.vos Match/SliceExact.vok Match/SliceExact.required_vos: Match/SliceExact.v Match/Model.vos Match/Proofs.vos
+Match/Witnesses.vo Match/Witnesses.glob Match/Witnesses.v.beautified Match/Witnesses.required_vo: Match/Witnesses.v Match/Model.vo Generated/C02_Builtins.vo
+Match/Witnesses.vio: Match/Witnesses.v Match/Model.vio Generated/C02_Builtins.vio
+Match/Witnesses.vos Match/Witnesses.vok Match/Witnesses.required_vos: Match/Witnesses.v Match/Model.vos Generated/C02_Builtins.vos
 Merge/Model.vo Merge/Model.glob Merge/Model.v.beautified Merge/Model.required_vo: Merge/Model.v 
 Merge/Model.vio: Merge/Model.v 
 Merge/Model.vos Merge/Model.vok Merge/Model.required_vos: Merge/Model.v 
@@ -160,6 +166,9 @@ Opt/Stable.vos Opt/Stable.vok Opt/Stable.required_vos: Opt/Stable.v Opt/Syntax.v
 Opt/Syntax.vo Opt/Syntax.glob Opt/Syntax.v.beautified Opt/Syntax.required_vo: Opt/Syntax.v 
 Opt/Syntax.vio: Opt/Syntax.v 
 Opt/Syntax.vos Opt/Syntax.vok Opt/Syntax.required_vos: Opt/Syntax.v 
+Plan/CoverProofs.vo Plan/CoverProofs.glob Plan/CoverProofs.v.beautified Plan/CoverProofs.required_vo: Plan/CoverProofs.v Plan/Model.vo Plan/Proofs.vo
+Plan/CoverProofs.vio: Plan/CoverProofs.v Plan/Model.vio Plan/Proofs.vio
+Plan/CoverProofs.vos Plan/CoverProofs.vok Plan/CoverProofs.required_vos: Plan/CoverProofs.v Plan/Model.vos Plan/Proofs.vos
 Plan/Model.vo Plan/Model.glob Plan/Model.v.beautified Plan/Model.required_vo: Plan/Model.v 
 Plan/Model.vio: Plan/Model.v 
 Plan/Model.vos Plan/Model.vok Plan/Model.required_vos: Plan/Model.v 
@@ -175,21 +184,27 @@ Print/Model.vos Print/Model.vok Print/Model.required_vos: Print/Model.v
 Print/Proofs.vo Print/Proofs.glob Print/Proofs.v.beautified Print/Proofs.required_vo: Print/Proofs.v Print/Model.vo
 Print/Proofs.vio: Print/Proofs.v Print/Model.vio
 Print/Proofs.vos Print/Proofs.vok Print/Proofs.required_vos: Print/Proofs.v Print/Model.vos
-Props/C02.vo Props/C02.glob Props/C02.v.beautified Props/C02.required_vo: Props/C02.v Match/Model.vo Match/Proofs.vo Generated/C02_Builtins.vo
-Props/C02.vio: Props/C02.v Match/Model.vio Match/Proofs.vio Generated/C02_Builtins.vio
-Props/C02.vos Props/C02.vok Props/C02.required_vos: Props/C02.v Match/Model.vos Match/Proofs.vos Generated/C02_Builtins.vos
+Props/C01.vo Props/C01.glob Props/C01.v.beautified Props/C01.required_vo: Props/C01.v Vm/Model.vo Vm/Lemmas.vo Vm/TypesProofs.vo Vm/Proofs.vo
+Props/C01.vio: Props/C01.v Vm/Model.vio Vm/Lemmas.vio Vm/TypesProofs.vio Vm/Proofs.vio
+Props/C01.vos Props/C01.vok Props/C01.required_vos: Props/C01.v Vm/Model.vos Vm/Lemmas.vos Vm/TypesProofs.vos Vm/Proofs.vos
+Props/C02.vo Props/C02.glob Props/C02.v.beautified Props/C02.required_vo: Props/C02.v Match/Model.vo Match/Proofs.vo Match/SliceExact.vo Match/Witnesses.vo Generated/C02_Builtins.vo
+Props/C02.vio: Props/C02.v Match/Model.vio Match/Proofs.vio Match/SliceExact.vio Match/Witnesses.vio Generated/C02_Builtins.vio
+Props/C02.vos Props/C02.vok Props/C02.required_vos: Props/C02.v Match/Model.vos Match/Proofs.vos Match/SliceExact.vos Match/Witnesses.vos Generated/C02_Builtins.vos
 Props/C03.vo Props/C03.glob Props/C03.v.beautified Props/C03.required_vo: Props/C03.v Generated/C03_ErrorClasses.vo Directors/Model.vo Directors/Spec.vo Directors/Proofs.vo
 Props/C03.vio: Props/C03.v Generated/C03_ErrorClasses.vio Directors/Model.vio Directors/Spec.vio Directors/Proofs.vio
 Props/C03.vos Props/C03.vok Props/C03.required_vos: Props/C03.v Generated/C03_ErrorClasses.vos Directors/Model.vos Directors/Spec.vos Directors/Proofs.vos
 Props/C04.vo Props/C04.glob Props/C04.v.beautified Props/C04.required_vo: Props/C04.v Canon/Model.vo Canon/SortLemmas.vo Canon/Proofs.vo Canon/ErrorProofs.vo
 Props/C04.vio: Props/C04.v Canon/Model.vio Canon/SortLemmas.vio Canon/Proofs.vio Canon/ErrorProofs.vio
 Props/C04.vos Props/C04.vok Props/C04.required_vos: Props/C04.v Canon/Model.vos Canon/SortLemmas.vos Canon/Proofs.vos Canon/ErrorProofs.vos
+Props/C05.vo Props/C05.glob Props/C05.v.beautified Props/C05.required_vo: Props/C05.v Print/Model.vo Print/Proofs.vo
+Props/C05.vio: Props/C05.v Print/Model.vio Print/Proofs.vio
+Props/C05.vos Props/C05.vok Props/C05.required_vos: Props/C05.v Print/Model.vos Print/Proofs.vos
 Props/C06.vo Props/C06.glob Props/C06.v.beautified Props/C06.required_vo: Props/C06.v Conv/Model.vo Conv/Proofs.vo
 Props/C06.vio: Props/C06.v Conv/Model.vio Conv/Proofs.vio
 Props/C06.vos Props/C06.vok Props/C06.required_vos: Props/C06.v Conv/Model.vos Conv/Proofs.vos
-Props/C07.vo Props/C07.glob Props/C07.v.beautified Props/C07.required_vo: Props/C07.v Typegraph/Graph.vo Typegraph/Solver.vo Typegraph/Spec.vo Typegraph/SetLemmas.vo Typegraph/RfgProofs.vo Typegraph/PathProofs.vo Typegraph/SearchProofs.vo Typegraph/SolverProofs.vo Typegraph/ExactProofs.vo
-Props/C07.vio: Props/C07.v Typegraph/Graph.vio Typegraph/Solver.vio Typegraph/Spec.vio Typegraph/SetLemmas.vio Typegraph/RfgProofs.vio Typegraph/PathProofs.vio Typegraph/SearchProofs.vio Typegraph/SolverProofs.vio Typegraph/ExactProofs.vio
-Props/C07.vos Props/C07.vok Props/C07.required_vos: Props/C07.v Typegraph/Graph.vos Typegraph/Solver.vos Typegraph/Spec.vos Typegraph/SetLemmas.vos Typegraph/RfgProofs.vos Typegraph/PathProofs.vos Typegraph/SearchProofs.vos Typegraph/SolverProofs.vos Typegraph/ExactProofs.vos
+Props/C07.vo Props/C07.glob Props/C07.v.beautified Props/C07.required_vo: Props/C07.v Typegraph/Graph.vo Typegraph/Solver.vo Typegraph/Spec.vo Typegraph/SetLemmas.vo Typegraph/RfgProofs.vo Typegraph/PathProofs.vo Typegraph/SearchProofs.vo Typegraph/SolverProofs.vo Typegraph/ResolveMono.vo Typegraph/ExactProofs.vo Typegraph/WalkProofs.vo Typegraph/FuelProofs.vo
+Props/C07.vio: Props/C07.v Typegraph/Graph.vio Typegraph/Solver.vio Typegraph/Spec.vio Typegraph/SetLemmas.vio Typegraph/RfgProofs.vio Typegraph/PathProofs.vio Typegraph/SearchProofs.vio Typegraph/SolverProofs.vio Typegraph/ResolveMono.vio Typegraph/ExactProofs.vio Typegraph/WalkProofs.vio Typegraph/FuelProofs.vio
+Props/C07.vos Props/C07.vok Props/C07.required_vos: Props/C07.v Typegraph/Graph.vos Typegraph/Solver.vos Typegraph/Spec.vos Typegraph/SetLemmas.vos Typegraph/RfgProofs.vos Typegraph/PathProofs.vos Typegraph/SearchProofs.vos Typegraph/SolverProofs.vos Typegraph/ResolveMono.vos Typegraph/ExactProofs.vos Typegraph/WalkProofs.vos Typegraph/FuelProofs.vos
 Props/C08.vo Props/C08.glob Props/C08.v.beautified Props/C08.required_vo: Props/C08.v Typegraph/History.vo Typegraph/HistoryProofs.vo Generated/C08_Invalidation.vo
 Props/C08.vio: Props/C08.v Typegraph/History.vio Typegraph/HistoryProofs.vio Generated/C08_Invalidation.vio
 Props/C08.vos Props/C08.vok Props/C08.required_vos: Props/C08.v Typegraph/History.vos Typegraph/HistoryProofs.vos Generated/C08_Invalidation.vos
@@ -202,9 +217,9 @@ Props/C10.vos Props/C10.vok Props/C10.required_vos: Props/C10.v Mro/Model.vos Mr
 Props/C11.vo Props/C11.glob Props/C11.v.beautified Props/C11.required_vo: Props/C11.v Opt/Syntax.vo Generated/C11_Passes.vo Opt/Model.vo Opt/Spec.vo Opt/Proofs.vo Opt/Idem.vo Opt/Stable.vo
 Props/C11.vio: Props/C11.v Opt/Syntax.vio Generated/C11_Passes.vio Opt/Model.vio Opt/Spec.vio Opt/Proofs.vio Opt/Idem.vio Opt/Stable.vio
 Props/C11.vos Props/C11.vok Props/C11.required_vos: Props/C11.v Opt/Syntax.vos Generated/C11_Passes.vos Opt/Model.vos Opt/Spec.vos Opt/Proofs.vos Opt/Idem.vos Opt/Stable.vos
-Props/C12.vo Props/C12.glob Props/C12.v.beautified Props/C12.required_vo: Props/C12.v Serial/Model.vo Serial/Proofs.vo Serial/HashProofs.vo Serial/Grammar.vo Serial/GrammarProofs.vo Generated/C12_Schema.vo Serial/SchemaFacts.vo
-Props/C12.vio: Props/C12.v Serial/Model.vio Serial/Proofs.vio Serial/HashProofs.vio Serial/Grammar.vio Serial/GrammarProofs.vio Generated/C12_Schema.vio Serial/SchemaFacts.vio
-Props/C12.vos Props/C12.vok Props/C12.required_vos: Props/C12.v Serial/Model.vos Serial/Proofs.vos Serial/HashProofs.vos Serial/Grammar.vos Serial/GrammarProofs.vos Generated/C12_Schema.vos Serial/SchemaFacts.vos
+Props/C12.vo Props/C12.glob Props/C12.v.beautified Props/C12.required_vo: Props/C12.v Serial/Model.vo Serial/Proofs.vo Serial/HashProofs.vo Serial/OrderProofs.vo Serial/Grammar.vo Serial/GrammarProofs.vo Serial/Ast.vo Serial/AstProofs.vo Generated/C12_Schema.vo Serial/SchemaFacts.vo
+Props/C12.vio: Props/C12.v Serial/Model.vio Serial/Proofs.vio Serial/HashProofs.vio Serial/OrderProofs.vio Serial/Grammar.vio Serial/GrammarProofs.vio Serial/Ast.vio Serial/AstProofs.vio Generated/C12_Schema.vio Serial/SchemaFacts.vio
+Props/C12.vos Props/C12.vok Props/C12.required_vos: Props/C12.v Serial/Model.vos Serial/Proofs.vos Serial/HashProofs.vos Serial/OrderProofs.vos Serial/Grammar.vos Serial/GrammarProofs.vos Serial/Ast.vos Serial/AstProofs.vos Generated/C12_Schema.vos Serial/SchemaFacts.vos
 Props/C13.vo Props/C13.glob Props/C13.v.beautified Props/C13.required_vo: Props/C13.v Bind/Model.vo Bind/Proofs.vo
 Props/C13.vio: Props/C13.v Bind/Model.vio Bind/Proofs.vio
 Props/C13.vos Props/C13.vok Props/C13.required_vos: Props/C13.v Bind/Model.vos Bind/Proofs.vos
@@ -223,12 +238,18 @@ Props/C17.vos Props/C17.vok Props/C17.required_vos: Props/C17.v Booleq/Model.vos
 Props/C18.vo Props/C18.glob Props/C18.v.beautified Props/C18.required_vo: Props/C18.v Flow/Model.vo Flow/Proofs.vo
 Props/C18.vio: Props/C18.v Flow/Model.vio Flow/Proofs.vio
 Props/C18.vos Props/C18.vok Props/C18.required_vos: Props/C18.v Flow/Model.vos Flow/Proofs.vos
-Props/C19.vo Props/C19.glob Props/C19.v.beautified Props/C19.required_vo: Props/C19.v Plan/Model.vo Plan/Proofs.vo
-Props/C19.vio: Props/C19.v Plan/Model.vio Plan/Proofs.vio
-Props/C19.vos Props/C19.vok Props/C19.required_vos: Props/C19.v Plan/Model.vos Plan/Proofs.vos
+Props/C19.vo Props/C19.glob Props/C19.v.beautified Props/C19.required_vo: Props/C19.v Plan/Model.vo Plan/Proofs.vo Plan/StmtProofs.vo Plan/CoverProofs.vo
+Props/C19.vio: Props/C19.v Plan/Model.vio Plan/Proofs.vio Plan/StmtProofs.vio Plan/CoverProofs.vio
+Props/C19.vos Props/C19.vok Props/C19.required_vos: Props/C19.v Plan/Model.vos Plan/Proofs.vos Plan/StmtProofs.vos Plan/CoverProofs.vos
 Props/C20.vo Props/C20.glob Props/C20.v.beautified Props/C20.required_vo: Props/C20.v Merge/Model.vo Merge/Proofs.vo
 Props/C20.vio: Props/C20.v Merge/Model.vio Merge/Proofs.vio
 Props/C20.vos Props/C20.vok Props/C20.required_vos: Props/C20.v Merge/Model.vos Merge/Proofs.vos
+Serial/Ast.vo Serial/Ast.glob Serial/Ast.v.beautified Serial/Ast.required_vo: Serial/Ast.v Serial/Model.vo Serial/Grammar.vo
+Serial/Ast.vio: Serial/Ast.v Serial/Model.vio Serial/Grammar.vio
+Serial/Ast.vos Serial/Ast.vok Serial/Ast.required_vos: Serial/Ast.v Serial/Model.vos Serial/Grammar.vos
+Serial/AstProofs.vo Serial/AstProofs.glob Serial/AstProofs.v.beautified Serial/AstProofs.required_vo: Serial/AstProofs.v Serial/Model.vo Serial/Proofs.vo Serial/Grammar.vo Serial/GrammarProofs.vo Serial/Ast.vo
+Serial/AstProofs.vio: Serial/AstProofs.v Serial/Model.vio Serial/Proofs.vio Serial/Grammar.vio Serial/GrammarProofs.vio Serial/Ast.vio
+Serial/AstProofs.vos Serial/AstProofs.vok Serial/AstProofs.required_vos: Serial/AstProofs.v Serial/Model.vos Serial/Proofs.vos Serial/Grammar.vos Serial/GrammarProofs.vos Serial/Ast.vos
 Serial/Grammar.vo Serial/Grammar.glob Serial/Grammar.v.beautified Serial/Grammar.required_vo: Serial/Grammar.v Serial/Model.vo
 Serial/Grammar.vio: Serial/Grammar.v Serial/Model.vio
 Serial/Grammar.vos Serial/Grammar.vok Serial/Grammar.required_vos: Serial/Grammar.v Serial/Model.vos
@@ -241,15 +262,21 @@ Serial/HashProofs.vos Serial/HashProofs.vok Serial/HashProofs.required_vos: Seri
 Serial/Model.vo Serial/Model.glob Serial/Model.v.beautified Serial/Model.required_vo: Serial/Model.v 
 Serial/Model.vio: Serial/Model.v 
 Serial/Model.vos Serial/Model.vok Serial/Model.required_vos: Serial/Model.v 
+Serial/OrderProofs.vo Serial/OrderProofs.glob Serial/OrderProofs.v.beautified Serial/OrderProofs.required_vo: Serial/OrderProofs.v Serial/Model.vo Serial/Proofs.vo Serial/HashProofs.vo
+Serial/OrderProofs.vio: Serial/OrderProofs.v Serial/Model.vio Serial/Proofs.vio Serial/HashProofs.vio
+Serial/OrderProofs.vos Serial/OrderProofs.vok Serial/OrderProofs.required_vos: Serial/OrderProofs.v Serial/Model.vos Serial/Proofs.vos Serial/HashProofs.vos
 Serial/Proofs.vo Serial/Proofs.glob Serial/Proofs.v.beautified Serial/Proofs.required_vo: Serial/Proofs.v Serial/Model.vo
 Serial/Proofs.vio: Serial/Proofs.v Serial/Model.vio
 Serial/Proofs.vos Serial/Proofs.vok Serial/Proofs.required_vos: Serial/Proofs.v Serial/Model.vos
-Serial/SchemaFacts.vo Serial/SchemaFacts.glob Serial/SchemaFacts.v.beautified Serial/SchemaFacts.required_vo: Serial/SchemaFacts.v Serial/Model.vo Serial/Proofs.vo Serial/HashProofs.vo Serial/Grammar.vo Serial/GrammarProofs.vo Generated/C12_Schema.vo
-Serial/SchemaFacts.vio: Serial/SchemaFacts.v Serial/Model.vio Serial/Proofs.vio Serial/HashProofs.vio Serial/Grammar.vio Serial/GrammarProofs.vio Generated/C12_Schema.vio
-Serial/SchemaFacts.vos Serial/SchemaFacts.vok Serial/SchemaFacts.required_vos: Serial/SchemaFacts.v Serial/Model.vos Serial/Proofs.vos Serial/HashProofs.vos Serial/Grammar.vos Serial/GrammarProofs.vos Generated/C12_Schema.vos
-Typegraph/ExactProofs.vo Typegraph/ExactProofs.glob Typegraph/ExactProofs.v.beautified Typegraph/ExactProofs.required_vo: Typegraph/ExactProofs.v Typegraph/Graph.vo Typegraph/Solver.vo Typegraph/Spec.vo Typegraph/SetLemmas.vo Typegraph/RfgProofs.vo Typegraph/PathProofs.vo Typegraph/SearchProofs.vo Typegraph/SolverProofs.vo
-Typegraph/ExactProofs.vio: Typegraph/ExactProofs.v Typegraph/Graph.vio Typegraph/Solver.vio Typegraph/Spec.vio Typegraph/SetLemmas.vio Typegraph/RfgProofs.vio Typegraph/PathProofs.vio Typegraph/SearchProofs.vio Typegraph/SolverProofs.vio
-Typegraph/ExactProofs.vos Typegraph/ExactProofs.vok Typegraph/ExactProofs.required_vos: Typegraph/ExactProofs.v Typegraph/Graph.vos Typegraph/Solver.vos Typegraph/Spec.vos Typegraph/SetLemmas.vos Typegraph/RfgProofs.vos Typegraph/PathProofs.vos Typegraph/SearchProofs.vos Typegraph/SolverProofs.vos
+Serial/SchemaFacts.vo Serial/SchemaFacts.glob Serial/SchemaFacts.v.beautified Serial/SchemaFacts.required_vo: Serial/SchemaFacts.v Serial/Model.vo Serial/Proofs.vo Serial/HashProofs.vo Serial/OrderProofs.vo Serial/Grammar.vo Serial/GrammarProofs.vo Serial/Ast.vo Serial/AstProofs.vo Generated/C12_Schema.vo
+Serial/SchemaFacts.vio: Serial/SchemaFacts.v Serial/Model.vio Serial/Proofs.vio Serial/HashProofs.vio Serial/OrderProofs.vio Serial/Grammar.vio Serial/GrammarProofs.vio Serial/Ast.vio Serial/AstProofs.vio Generated/C12_Schema.vio
+Serial/SchemaFacts.vos Serial/SchemaFacts.vok Serial/SchemaFacts.required_vos: Serial/SchemaFacts.v Serial/Model.vos Serial/Proofs.vos Serial/HashProofs.vos Serial/OrderProofs.vos Serial/Grammar.vos Serial/GrammarProofs.vos Serial/Ast.vos Serial/AstProofs.vos Generated/C12_Schema.vos
+Typegraph/ExactProofs.vo Typegraph/ExactProofs.glob Typegraph/ExactProofs.v.beautified Typegraph/ExactProofs.required_vo: Typegraph/ExactProofs.v Typegraph/Graph.vo Typegraph/Solver.vo Typegraph/Spec.vo Typegraph/SetLemmas.vo Typegraph/RfgProofs.vo Typegraph/PathProofs.vo Typegraph/SearchProofs.vo Typegraph/SolverProofs.vo Typegraph/ResolveMono.vo
+Typegraph/ExactProofs.vio: Typegraph/ExactProofs.v Typegraph/Graph.vio Typegraph/Solver.vio Typegraph/Spec.vio Typegraph/SetLemmas.vio Typegraph/RfgProofs.vio Typegraph/PathProofs.vio Typegraph/SearchProofs.vio Typegraph/SolverProofs.vio Typegraph/ResolveMono.vio
+Typegraph/ExactProofs.vos Typegraph/ExactProofs.vok Typegraph/ExactProofs.required_vos: Typegraph/ExactProofs.v Typegraph/Graph.vos Typegraph/Solver.vos Typegraph/Spec.vos Typegraph/SetLemmas.vos Typegraph/RfgProofs.vos Typegraph/PathProofs.vos Typegraph/SearchProofs.vos Typegraph/SolverProofs.vos Typegraph/ResolveMono.vos
+Typegraph/FuelProofs.vo Typegraph/FuelProofs.glob Typegraph/FuelProofs.v.beautified Typegraph/FuelProofs.required_vo: Typegraph/FuelProofs.v Typegraph/Graph.vo Typegraph/Solver.vo Typegraph/Spec.vo Typegraph/SetLemmas.vo Typegraph/RfgProofs.vo Typegraph/ResolveMono.vo Typegraph/PathProofs.vo Typegraph/SearchProofs.vo Typegraph/SolverProofs.vo
+Typegraph/FuelProofs.vio: Typegraph/FuelProofs.v Typegraph/Graph.vio Typegraph/Solver.vio Typegraph/Spec.vio Typegraph/SetLemmas.vio Typegraph/RfgProofs.vio Typegraph/ResolveMono.vio Typegraph/PathProofs.vio Typegraph/SearchProofs.vio Typegraph/SolverProofs.vio
+Typegraph/FuelProofs.vos Typegraph/FuelProofs.vok Typegraph/FuelProofs.required_vos: Typegraph/FuelProofs.v Typegraph/Graph.vos Typegraph/Solver.vos Typegraph/Spec.vos Typegraph/SetLemmas.vos Typegraph/RfgProofs.vos Typegraph/ResolveMono.vos Typegraph/PathProofs.vos Typegraph/SearchProofs.vos Typegraph/SolverProofs.vos
 Typegraph/Graph.vo Typegraph/Graph.glob Typegraph/Graph.v.beautified Typegraph/Graph.required_vo: Typegraph/Graph.v 
 Typegraph/Graph.vio: Typegraph/Graph.v 
 Typegraph/Graph.vos Typegraph/Graph.vok Typegraph/Graph.required_vos: Typegraph/Graph.v 
@@ -268,6 +295,9 @@ Typegraph/Reach.vos Typegraph/Reach.vok Typegraph/Reach.required_vos: Typegraph/
 Typegraph/ReachProofs.vo Typegraph/ReachProofs.glob Typegraph/ReachProofs.v.beautified Typegraph/ReachProofs.required_vo: Typegraph/ReachProofs.v Typegraph/Reach.vo
 Typegraph/ReachProofs.vio: Typegraph/ReachProofs.v Typegraph/Reach.vio
 Typegraph/ReachProofs.vos Typegraph/ReachProofs.vok Typegraph/ReachProofs.required_vos: Typegraph/ReachProofs.v Typegraph/Reach.vos
+Typegraph/ResolveMono.vo Typegraph/ResolveMono.glob Typegraph/ResolveMono.v.beautified Typegraph/ResolveMono.required_vo: Typegraph/ResolveMono.v Typegraph/Graph.vo Typegraph/Solver.vo Typegraph/Spec.vo Typegraph/SetLemmas.vo Typegraph/RfgProofs.vo Typegraph/PathProofs.vo
+Typegraph/ResolveMono.vio: Typegraph/ResolveMono.v Typegraph/Graph.vio Typegraph/Solver.vio Typegraph/Spec.vio Typegraph/SetLemmas.vio Typegraph/RfgProofs.vio Typegraph/PathProofs.vio
+Typegraph/ResolveMono.vos Typegraph/ResolveMono.vok Typegraph/ResolveMono.required_vos: Typegraph/ResolveMono.v Typegraph/Graph.vos Typegraph/Solver.vos Typegraph/Spec.vos Typegraph/SetLemmas.vos Typegraph/RfgProofs.vos Typegraph/PathProofs.vos
 Typegraph/RfgProofs.vo Typegraph/RfgProofs.glob Typegraph/RfgProofs.v.beautified Typegraph/RfgProofs.required_vo: Typegraph/RfgProofs.v Typegraph/Graph.vo Typegraph/Solver.vo Typegraph/Spec.vo Typegraph/SetLemmas.vo
 Typegraph/RfgProofs.vio: Typegraph/RfgProofs.v Typegraph/Graph.vio Typegraph/Solver.vio Typegraph/Spec.vio Typegraph/SetLemmas.vio
 Typegraph/RfgProofs.vos Typegraph/RfgProofs.vok Typegraph/RfgProofs.required_vos: Typegraph/RfgProofs.v Typegraph/Graph.vos Typegraph/Solver.vos Typegraph/Spec.vos Typegraph/SetLemmas.vos
@@ -286,3 +316,18 @@ Typegraph/SolverProofs.vos Typegraph/SolverProofs.vok Typegraph/SolverProofs.req
 Typegraph/Spec.vo Typegraph/Spec.glob Typegraph/Spec.v.beautified Typegraph/Spec.required_vo: Typegraph/Spec.v Typegraph/Graph.vo Typegraph/Solver.vo
 Typegraph/Spec.vio: Typegraph/Spec.v Typegraph/Graph.vio Typegraph/Solver.vio
 Typegraph/Spec.vos Typegraph/Spec.vok Typegraph/Spec.required_vos: Typegraph/Spec.v Typegraph/Graph.vos Typegraph/Solver.vos
+Typegraph/WalkProofs.vo Typegraph/WalkProofs.glob Typegraph/WalkProofs.v.beautified Typegraph/WalkProofs.required_vo: Typegraph/WalkProofs.v Typegraph/Graph.vo Typegraph/Solver.vo Typegraph/Spec.vo Typegraph/SetLemmas.vo Typegraph/RfgProofs.vo Typegraph/PathProofs.vo Typegraph/ResolveMono.vo Typegraph/SearchProofs.vo Typegraph/SolverProofs.vo Typegraph/ExactProofs.vo
+Typegraph/WalkProofs.vio: Typegraph/WalkProofs.v Typegraph/Graph.vio Typegraph/Solver.vio Typegraph/Spec.vio Typegraph/SetLemmas.vio Typegraph/RfgProofs.vio Typegraph/PathProofs.vio Typegraph/ResolveMono.vio Typegraph/SearchProofs.vio Typegraph/SolverProofs.vio Typegraph/ExactProofs.vio
+Typegraph/WalkProofs.vos Typegraph/WalkProofs.vok Typegraph/WalkProofs.required_vos: Typegraph/WalkProofs.v Typegraph/Graph.vos Typegraph/Solver.vos Typegraph/Spec.vos Typegraph/SetLemmas.vos Typegraph/RfgProofs.vos Typegraph/PathProofs.vos Typegraph/ResolveMono.vos Typegraph/SearchProofs.vos Typegraph/SolverProofs.vos Typegraph/ExactProofs.vos
+Vm/Lemmas.vo Vm/Lemmas.glob Vm/Lemmas.v.beautified Vm/Lemmas.required_vo: Vm/Lemmas.v Vm/Model.vo
+Vm/Lemmas.vio: Vm/Lemmas.v Vm/Model.vio
+Vm/Lemmas.vos Vm/Lemmas.vok Vm/Lemmas.required_vos: Vm/Lemmas.v Vm/Model.vos
+Vm/Model.vo Vm/Model.glob Vm/Model.v.beautified Vm/Model.required_vo: Vm/Model.v 
+Vm/Model.vio: Vm/Model.v 
+Vm/Model.vos Vm/Model.vok Vm/Model.required_vos: Vm/Model.v 
+Vm/Proofs.vo Vm/Proofs.glob Vm/Proofs.v.beautified Vm/Proofs.required_vo: Vm/Proofs.v Vm/Model.vo Vm/Lemmas.vo Vm/TypesProofs.vo
+Vm/Proofs.vio: Vm/Proofs.v Vm/Model.vio Vm/Lemmas.vio Vm/TypesProofs.vio
+Vm/Proofs.vos Vm/Proofs.vok Vm/Proofs.required_vos: Vm/Proofs.v Vm/Model.vos Vm/Lemmas.vos Vm/TypesProofs.vos
+Vm/TypesProofs.vo Vm/TypesProofs.glob Vm/TypesProofs.v.beautified Vm/TypesProofs.required_vo: Vm/TypesProofs.v Vm/Model.vo Vm/Lemmas.vo
+Vm/TypesProofs.vio: Vm/TypesProofs.v Vm/Model.vio Vm/Lemmas.vio
+Vm/TypesProofs.vos Vm/TypesProofs.vok Vm/TypesProofs.required_vos: Vm/TypesProofs.v Vm/Model.vos Vm/Lemmas.vos
